@@ -1042,6 +1042,36 @@ impl<'a, 'ast> Visit<'ast> for Rewriter<'a> {
                 }
             }
         }
+        if self.cfg.rmatch && name == "partition_point" && m.args.len() == 1 {
+            // R-ppoint: `s.partition_point(|x| *x <= K)` -> `vx_partition_point_le(s, K)` (prelude, std's
+            // documented meaning on a sorted slice: the number of elements <= K)
+            if let Expr::Closure(c) = &m.args[0] {
+                if let (1, Expr::Binary(b)) = (c.inputs.len(), &*c.body) {
+                    let pn = norm(self.sf.slice(self.r(c.inputs[0].span())));
+                    let ln = norm(self.sf.slice(self.r(b.left.span())));
+                    if matches!(b.op, BinOp::Le(_)) && ln == format!("*{}", pn) {
+                        self.visit_expr(&m.receiver);
+                        self.visit_expr(&b.right);
+                        let rr = self.r(m.receiver.span());
+                        let kr = self.r(b.right.span());
+                        let whole = self.r(m.span());
+                        self.edits.replace(
+                            whole,
+                            vec![
+                                Piece::Lit("vx_partition_point_le(".into()),
+                                Piece::Src(rr.0, rr.1),
+                                Piece::Lit(", ".into()),
+                                Piece::Src(kr.0, kr.1),
+                                Piece::Lit(")".into()),
+                            ],
+                            "R-ppoint",
+                        );
+                        self.note("R-ppoint", m.span());
+                        return;
+                    }
+                }
+            }
+        }
         if self.cfg.rmatch && name == "and_then" && m.args.len() == 1 {
             // R-match: `o.and_then(|p| BODY)` on Option -> `match o { None => None, Some(p) => BODY }`
             if let Expr::Closure(c) = &m.args[0] {
